@@ -66,8 +66,10 @@ TARGETS = [
 IGNORED_GLOBALS = {"cout", "cerr", "cin", "clog", "endl"}     # I/O streams are not domain state
 # documented process-wide state excluded by the property texts (C16: Rational::flags; C18: allocator free lists,
 # GMP random state).  They are still listed in the description, as `excluded`.
-EXCLUDED_GLOBALS = {"flags": "Rational::flags (documented global reduction switch, excluded by C16)",
-                    "TabFree": "GivMMFreeList free lists (process-wide allocator state, excluded by C18/C16 texts)",
+# documented globals whose VALUE an operation may depend on (excluded by C16's text) -- a const operation WRITING one is still a
+# write to process-wide state (race for C18, history dependence for C16): only reads are excluded
+READ_EXCLUDED_GLOBALS = {"flags": "Rational::flags (documented global reduction switch: results may depend on it; writing it is not excluded)"}
+EXCLUDED_GLOBALS = {"TabFree": "GivMMFreeList free lists (process-wide allocator state, excluded by C18/C16 texts)",
                     "logalloc": "allocator statistics of the free lists (process-wide allocator state)",
                     "tablog": "allocator statistics of the free lists (process-wide allocator state)",
                     "physalloc": "allocator statistics of the free lists (process-wide allocator state)",
@@ -155,7 +157,7 @@ def split_params(ftype):
 
 def ast_cache_key():
     srcs = vf.repo_sources() + [INST, os.path.abspath(__file__)]
-    return vf.file_hash(srcs, "c16-objmodel-v5")
+    return vf.file_hash(srcs, "c16-objmodel-v7")
 
 
 def dump_ast():
@@ -935,6 +937,16 @@ def rc_events(idx, an, fnnode, par):
             p = access_path(s[0], fn)
             if p is not None and p.deref and p.members and p.root in ("this", "param"):
                 ev.append(("inc" if n.get("opcode") == "++" else "dec", "this" if p.root == "this" else "src", p.members[0]))
+        if k == "CXXOperatorCallExpr" and len(s) >= 2 and _callee_name(s[0]) in ("operator++", "operator--"):
+            # std::atomic<int> counter: ++(*numRefs) / --(*numRefs) are member operator calls
+            p = access_path(s[1], fn)
+            if p is not None and p.deref and p.members and p.root in ("this", "param"):
+                ev.append(("inc" if _callee_name(s[0]) == "operator++" else "dec", "this" if p.root == "this" else "src", p.members[0]))
+        if k == "CXXMemberCallExpr" and s and _callee_name(s[0]) in ("fetch_add", "fetch_sub"):
+            cid, recv = _callee_id(n)
+            p = access_path(recv, fn) if recv is not None else None
+            if p is not None and p.members and p.root in ("this", "param"):
+                ev.append(("inc" if _callee_name(s[0]) == "fetch_add" else "dec", "this" if p.root == "this" else "src", p.members[0]))
         if k == "CXXDeleteExpr" and s:
             p = access_path(s[0], fn)
             if p is not None and p.root == "this" and p.members:
@@ -1047,7 +1059,10 @@ def describe_class(idx, an, disp, c):
     # copy constructor as an operation ON THE SOURCE (C18: copy-construction from the shared object)
     if cc is not None and has_body(cc):
         src_writes = []
+        ftypes = {f["name"]: f.get("type", "") for f in fields}
         for e in ce:
+            if e[0] in ("inc", "dec") and "atomic" in ftypes.get(e[2], ""):
+                continue        # std::atomic counter: an atomic read-modify-write, not a data race
             if e[0] in ("inc", "dec") and e[1] in ("src", "this"):
                 # numRefs(F.numRefs) then (*numRefs)++ : the counter is shared with the source
                 src_writes.append({"k": "own", "member": e[2], "how": "heap", "via": [c.get("name") + "::" + c.get("name") + "(const&)"]})
@@ -1224,7 +1239,7 @@ def effects_of(d, m):
         elif w["k"] == "global":
             e = ("RExcluded", root) if root in EXCLUDED_GLOBALS else ("WGlobal", root)
         elif w["k"] == "global_read":
-            e = ("RExcluded", root) if root in EXCLUDED_GLOBALS else ("RGlobal", root)
+            e = ("RExcluded", root) if (root in EXCLUDED_GLOBALS or root in READ_EXCLUDED_GLOBALS) else ("RGlobal", root)
         else:
             continue
         if e not in out:
